@@ -1,8 +1,8 @@
 /-
 Driver commands of property C03 (core Lean only).  Command names start with "c03.".
 
-  c03.run <pg><cr> <base>,<size>,<hex> … | op …
-      pg, cr ∈ {0,1}: peekGuard / clearOnRebase (code variant, see Hts.Model.CachedReader.Cfg)
+  c03.run <pg><cr><fr> <base>,<size>,<hex> … | op …
+      pg, cr, fr ∈ {0,1}: peekGuard / clearOnRebase / failReset (code variant, see Hts.Model.CachedReader.Cfg)
       members of the file, then the history:
         s<file>,<blk>   Seek            r<n>  Read(n bytes)      b  ReadByte       B0 / B1  Blocked := false / true
         c-              SetCache(nil)   c<kind>,<cap>[,<victim key>…]   SetCache(new cache); kind L F R SL SF SR;
@@ -158,11 +158,9 @@ def runOps (cfg : Cfg) (f : File) : Reader AnyCache → List String → List Str
 def handle (cmd : String) (args : List String) : Option String :=
   match cmd, args with
   | "c03.run", cfg :: rest => do
-    let cfg : Cfg ← match cfg with
-      | "00" => some ⟨false, false⟩
-      | "01" => some ⟨false, true⟩
-      | "10" => some ⟨true, false⟩
-      | "11" => some ⟨true, true⟩
+    let bit (c : Char) : Option Bool := if c == '1' then some true else if c == '0' then some false else none
+    let cfg : Cfg ← match cfg.toList with
+      | [a, b, c] => do some ⟨← bit a, ← bit b, ← bit c⟩
       | _ => none
     let f ← (rest.takeWhile (· ≠ "|")).mapM parseMember
     let ops := (rest.dropWhile (· ≠ "|")).drop 1
